@@ -133,38 +133,59 @@ def run(chk):
   if 'to_name' not in params or 'from_name' not in params:
     raise AnalysisError('concertina_lib.RenamePredicate signature changed')
 
-  def renamed(e):
-    """Expression is subject to the rename: mentions to_name, calls a local
-    helper that does, or is a variable conditionally re-assigned to_name."""
+  # the edge sets are rebuilt in RenamePredicate itself or in helpers it hands
+  # (edges, from_name, to_name) to; in a helper the parameter that receives
+  # to_name plays its role
+  hosts = [(rn, 'to_name')]
+  for n_, c in rn.all_calls():
+    for t in repo.resolve(rn.fi, c):
+      try:
+        h = FnView(repo, t)
+      except AnalysisError:
+        continue
+      if h.fi is rn.fi or h.fi.module is not rn.fi.module:
+        continue
+      for i_, a in enumerate(c.args):
+        if isinstance(a, ast.Name) and a.id == 'to_name' and i_ < len(h.fi.params):
+          hosts.append((h, h.fi.params[i_]))
+      for k in c.keywords:
+        if isinstance(k.value, ast.Name) and k.value.id == 'to_name' and k.arg in h.fi.params:
+          hosts.append((h, k.arg))
+
+  def renamed(hv, to, e):
+    """Expression is subject to the rename: mentions the new name, calls a
+    local helper that does, or is a variable conditionally re-assigned to it."""
     for x in ast.walk(e):
-      if isinstance(x, ast.Name) and x.id == 'to_name':
+      if isinstance(x, ast.Name) and x.id == to:
         return True
-      if isinstance(x, ast.Call) and isinstance(x.func, ast.Name) and x.func.id in rn.fi.nested:
-        sub = rn.fi.nested[x.func.id]
-        if any(isinstance(y, ast.Name) and y.id == 'to_name' for y in ast.walk(sub.node)):
+      if isinstance(x, ast.Call) and isinstance(x.func, ast.Name) and x.func.id in hv.fi.nested:
+        sub = hv.fi.nested[x.func.id]
+        if any(isinstance(y, ast.Name) and y.id == to for y in ast.walk(sub.node)):
           return True
       if isinstance(x, ast.Name):
-        for d in rn.assigned_from(x.id):
-          if isinstance(d, ast.AST) and any(isinstance(y, ast.Name) and y.id == 'to_name'
+        for d in hv.assigned_from(x.id):
+          if isinstance(d, ast.AST) and any(isinstance(y, ast.Name) and y.id == to
                                             for y in ast.walk(d)):
             return True
     return False
   tuples = []
-  for x in walk_local(rn.fi.node):
-    if isinstance(x, ast.Call) and call_tail(x) == 'add' and x.args and \
-        isinstance(x.args[0], ast.Tuple) and len(x.args[0].elts) == 2:
-      tuples.append(x.args[0])
-    if isinstance(x, (ast.SetComp, ast.ListComp, ast.GeneratorExp)) and \
-        isinstance(x.elt, ast.Tuple) and len(x.elt.elts) == 2:
-      tuples.append(x.elt)
-  if len(tuples) < 2:
+  for hv, to in hosts:
+    for x in walk_local(hv.fi.node):
+      if isinstance(x, ast.Call) and call_tail(x) == 'add' and x.args and \
+          isinstance(x.args[0], ast.Tuple) and len(x.args[0].elts) == 2:
+        tuples.append((hv, to, x.args[0]))
+      if isinstance(x, (ast.SetComp, ast.ListComp, ast.GeneratorExp)) and \
+          isinstance(x.elt, ast.Tuple) and len(x.elt.elts) == 2:
+        tuples.append((hv, to, x.elt))
+  if not tuples:
     raise AnalysisError('RenamePredicate: rebuilt edge tuples not recognised')
-  for t in tuples:
-    chk.ob('C14-R1', all(renamed(e) for e in t.elts), None,
+  # both edge sets go through a rebuilt tuple: two sites, or one helper called for each
+  for hv, to, t in tuples:
+    chk.ob('C14-R1', all(renamed(hv, to, e) for e in t.elts), None,
            'renaming a predicate renames both ends of every edge: %s' % norm(t, 50),
            'only one end of the edge %s is renamed: edges into (or out of) the '
            'renamed predicate keep the old name, so it loses its requirements '
-           'and may run before its inputs' % norm(t, 50), fi=rn.fi, node=t)
+           'and may run before its inputs' % norm(t, 50), fi=hv.fi, node=t)
 
   chk.rule('C14-R2', 'workflow stack push/pop bracket the recursive '
            'PredicateSql; FormattedPredicateSql asserts the stack is [name]; '
